@@ -69,9 +69,24 @@ def collect(pid, tier, seed, d):
     binp = build_harness(d, race=True)
     hist = os.path.join(d, "pool_hist.ndjson")
     racelog = os.path.join(d, "race")
-    run_harness(binp, ["pool", "--scn", scnp, "--out", hist, "--seed", str(seed), "--count", str(count), "--modes", modes,
-                       "-x", "maxscn=%d" % cap], env={"GORACE": "log_path=%s halt_on_error=0 exitcode=0" % racelog})
+    crash_violation = None
+    crash = run_harness(binp, ["pool", "--scn", scnp, "--out", hist, "--seed", str(seed), "--count", str(count), "--modes", modes,
+                               "-x", "maxscn=%d" % cap], env={"GORACE": "log_path=%s halt_on_error=0 exitcode=0" % racelog}, tolerate_crash=True)
+    if crash:
+        # (e.g. "sync: negative WaitGroup counter" raised in one of the pool's own goroutines: nobody can recover that)
+        with open(hist) as f:
+            good = [l for l in f.read().split("\n") if l.endswith("}")]
+        with open(hist, "w") as f:
+            f.write("\n".join(good) + ("\n" if good else ""))
+        log("the harness process crashed inside the library under test; judging the %d histories recorded before the crash" % len(good))
     fails, drifts, summ = judge_histories(d, "TPPool", hist, pid, shards=8, heap="3g")
+    if crash and not [f_ for f_ in fails if f_[1] == pid]:
+        if "flyt.(*WorkerPool)" in crash or "flyt.NewWorkerPool" in crash:
+            # the pool itself brought the process down and nothing recorded before shows a violation: that is the finding
+            crash_violation = {"property": pid, "family": "pool", "clauses": ["clean"], "signature": "%s:crash" % pid,
+                               "race_report": crash[-6000:], "scenario": None}
+        else:
+            raise ToolFailure(crash)
     log("judged %d pool histories (%d events): %d failing, %d drifting" % (summ.get("scenarios", 0), summ.get("events", 0), len(fails), len(drifts)))
     # code -> spec: small recorded histories must be explained by FlytPool (send and pickup inferred as silent steps)
     def small(r):
@@ -93,6 +108,8 @@ def collect(pid, tier, seed, d):
     mc_info.append({"spec": "TracePool (histories of a Close without Wait; conformance only, no verdict)", "histories": ev_n, "explained": len(ev_ok)})
     log("early-close histories explained by FlytPool (no verdict): %d of %d" % (len(ev_ok), ev_n))
     violations, known_hits = [], {}
+    if crash_violation:
+        violations.append(crash_violation)
     races = glob.glob(racelog + ".*")
     if races and pid == "C12":
         with open(races[0]) as f:
@@ -111,7 +128,9 @@ def collect(pid, tier, seed, d):
         again = {f[0] for f in fails2 if f[1] == pid}
         hist2 = os.path.join(d, "pool_reexec.ndjson")
         run_harness(binp, ["pool", "--out", hist2, "--seed", str(seed + 1), "-x", "replay=" + rp],
-                    env={"GORACE": "log_path=%s halt_on_error=0 exitcode=0" % racelog})
+                    env={"GORACE": "log_path=%s halt_on_error=0 exitcode=0" % racelog}, tolerate_crash=True)
+        if not os.path.exists(hist2):
+            open(hist2, "w").close()
         fails3, _, _ = judge_histories(d, "TPPool", hist2, pid, shards=2, heap="3g")
         reproduced = {f[0] for f in fails3 if f[1] == pid}
         for scn_id, prop, clauses in fails:
